@@ -110,26 +110,36 @@ Proof.
 Qed.
 Lemma sim_buffer_ok e T cur : Forall item_ok (p_sim_buffer e T cur).
 Proof. unfold p_sim_buffer, sim_buffer_ret. repeat step; finish. Qed.
-Lemma sim_calls_ok e T calls : Forall item_ok (p_sim_calls e T calls).
-Proof. unfold p_sim_calls. repeat step. apply sim_buffer_ok. Qed.
+Lemma sim_run_ok f T ops : (forall c, Forall item_ok (f c)) -> forall cur, Forall item_ok (sim_run f T cur ops).
+Proof.
+  intro Hf. induction ops as [|o r IH]; intro cur; simpl; [constructor|].
+  destruct o; [apply Forall_app; split; [apply Hf | apply IH] | apply IH].
+Qed.
 
-Lemma case_simstate_safe D T calls : 0 < T -> run (case_simstate D T (wna_d D) calls) = Safe.
+Lemma case_simstate_safe D T ops : 0 < T -> run (case_simstate D T (wna_d D) ops) = Safe.
 Proof.
   intro HT. apply run_safe_iff. unfold case_simstate. repeat step.
-  - apply wna_ctor_ok. - apply sim_ctor_ok; assumption. - apply sim_calls_ok.
+  - apply wna_ctor_ok. - apply sim_ctor_ok; assumption.
+  - apply sim_run_ok. intro c. apply sim_buffer_ok.
 Qed.
 
-(* exhaustion is reported by the return value: the k-th call (k = 0, 1, ...) returns true iff k < T *)
-Lemma sim_returns_spec T calls k : k < calls -> nth k (sim_returns T calls) false = (k <? T).
+(* exhaustion is reported by the return value.  The cursor is the transcribed state machine [sim_next]; that
+   without a reset call number k (from 0) returns true iff k < T is a theorem about it, by induction. *)
+Lemma sim_rets_from T calls : forall cur k, k < calls ->
+  nth k (sim_rets T cur (repeat SBuf calls)) false = (cur + k <? T).
 Proof.
-  intro Hk. unfold sim_returns.
-  rewrite (nth_indep _ false (sim_buffer_ret T (sim_cursor T 0))) by (rewrite map_length, seq_length; lia).
-  rewrite (map_nth (fun k => sim_buffer_ret T (sim_cursor T k))), seq_nth by lia.
-  unfold sim_buffer_ret, sim_cursor. simpl.
-  destruct (k <? T) eqn:E; b2p; [apply Nat.ltb_lt | apply Nat.ltb_ge]; lia.
+  induction calls as [|n IH]; intros cur k Hk; [lia|]. simpl.
+  destruct k as [|k'].
+  - unfold sim_buffer_ret. rewrite Nat.add_0_r. reflexivity.
+  - rewrite IH by lia. unfold sim_next. destruct (cur <? T) eqn:E; b2p.
+    + replace (S cur + k') with (cur + S k') by lia. reflexivity.
+    + transitivity false; [|symmetry]; apply Nat.ltb_ge; lia.
 Qed.
-Lemma sim_returns_length T calls : List.length (sim_returns T calls) = calls.
-Proof. unfold sim_returns. now rewrite map_length, seq_length. Qed.
+Lemma sim_returns_spec T calls k : k < calls -> nth k (sim_returns T calls) false = (k <? T).
+Proof. intro Hk. unfold sim_returns. rewrite sim_rets_from by exact Hk. reflexivity. Qed.
+(* after a reset the trajectory is served again from its first column *)
+Lemma sim_rets_reset T cur ops : sim_rets T cur (SReset :: ops) = sim_rets T 0 ops.
+Proof. reflexivity. Qed.
 
 (* ---------- LinearModel / SimulatedLinearSensor ---------- *)
 Lemma lm_noise_ok e m num : Forall item_ok (p_lm_noise e m num).
@@ -158,7 +168,7 @@ Proof.
   - apply wna_ctor_ok.
   - apply sim_ctor_ok; assumption.
   - apply sls_ctor_ok; auto. unfold wna_d; lia.
-  - apply sls_freeze_ok.
+  - apply sim_run_ok. intro c. apply sls_freeze_ok.
   - apply lm_noise_ok.
   - unfold p_lmm_pred; repeat step; finish.
   - unfold p_lmm_innov; repeat step; finish.
@@ -226,6 +236,13 @@ Qed.
 Lemma case_sigma_safe l comps : run (case_sigma l comps) = Safe.
 Proof. apply run_safe_iff, sigma_ok. Qed.
 
+Lemma utweight_ok e dof : Forall item_ok (p_utweight e dof).
+Proof. unfold p_utweight. repeat step; finish. Qed.
+Lemma augment_gm_ok e l comps qr qc : Forall item_ok (p_augment_gm e l comps qr qc).
+Proof.
+  unfold p_augment_gm, aug_ret. cbv zeta. destruct l as [L C q N]; destruct q; lay_cbn; repeat step; finish2.
+Qed.
+
 Lemma ut_core_ok e li comps valid pr pc lo :
   noise lo = 0 -> (valid = true -> pr = ldim lo /\ pc = (2 * lcov li + 1) * comps) ->
   Forall item_ok (p_ut_core e li comps (lcov li) valid pr pc lo).
@@ -254,7 +271,7 @@ Lemma case_ut_safe variant li comps w valid pr pc lo qr qc :
   run (case_ut variant li comps w valid pr pc lo qr qc) = Safe.
 Proof.
   intros (Hn & -> & Hv). apply run_safe_iff. unfold case_ut, ut_prop_shape, p_ut.
-  destruct variant as [|[|[|[|v]]]]; cbv beta iota zeta.
+  destruct variant as [|[|[|[|v]]]]; cbv beta iota zeta; (apply Forall_app; split; [apply utweight_ok|]).
   - rewrite app_nil_r. apply ut_core_ok; assumption.
   - rewrite app_nil_r. apply ut_core_ok; auto.
   - destruct Hv as (Hd & -> & ->). apply Forall_app; split; [|apply ut_add_noise_ok].
@@ -291,13 +308,15 @@ Qed.
 Lemma case_ukfp_additive_safe l comps : noise l = 0 ->
   run (case_ukfp true l comps (lcov l) l) = Safe.
 Proof.
-  intro Hn. apply run_safe_iff. unfold case_ukfp, p_ukf_predict, p_ut. cbv beta iota zeta. apply Forall_relabel.
+  intro Hn. apply run_safe_iff. unfold case_ukfp, p_ukf_predict, p_ut. cbv beta iota zeta.
+  apply Forall_app; split; [apply utweight_ok|]. apply Forall_relabel.
   apply Forall_app; split; [|apply ut_add_noise_ok]. apply ut_core_ok; auto.
 Qed.
 Lemma case_ukfp_generic_safe l comps q : noise l = 0 ->
   run (case_ukfp false l comps q l) = Safe.
 Proof.
-  intro Hn. apply run_safe_iff. unfold case_ukfp, p_ukf_predict, p_ut. cbv beta iota zeta. apply Forall_relabel.
+  intro Hn. apply run_safe_iff. unfold case_ukfp, p_ukf_predict, p_ut. cbv beta iota zeta.
+  apply Forall_app; split; [apply utweight_ok|]. apply Forall_app; split; [apply augment_gm_ok|]. apply Forall_relabel.
   rewrite app_nil_r.
   replace (lcov l + q) with (lcov (augment l q)) by (unfold lcov, tsz, augment; simpl; lia).
   apply ut_core_ok; auto.
@@ -310,12 +329,13 @@ Definition ukfc_valid (additive : bool) (lp : layout) (r : nat) (valid : bool) (
   quat lp = false /\ noise lp = 0 /\ noise lm = 0 /\
   (additive = true -> r = lcov lm).
 
-Lemma ukf_correct_ok additive lp comps r valid lm :
+Lemma ukf_correct_ok additive online lp comps r valid lm :
   ukfc_valid additive lp r valid lm ->
-  Forall item_ok (p_ukf_correct additive lp comps (if additive then lcov lp else lcov lp + r) r valid lm (lcov lm) lp comps).
+  Forall item_ok (p_ukf_correct additive online lp comps (if additive then lcov lp else lcov lp + r) r valid lm (lcov lm) lp comps).
 Proof.
   intros (Hqp & Hnp & Hnm & Hadd). unfold p_ukf_correct. cbv zeta.
-  apply Forall_app; split.
+  apply Forall_app; split; [|apply Forall_app; split].
+  - apply Forall_when; intro. apply Forall_app; split; [apply augment_gm_ok | apply Forall_when; intro; apply utweight_ok].
   - apply Forall_relabel. unfold p_ut. destruct additive; cbv beta iota zeta.
     + rewrite (Hadd eq_refl). apply Forall_app; split; [|apply Forall_when; intro; apply ut_add_noise_ok].
       apply ut_core_ok; auto.
@@ -326,11 +346,12 @@ Proof.
     destruct additive, q'; unfold g_cov, g_mean; lay_cbn; repeat step; finish2.
 Qed.
 
-Lemma case_ukfc_safe additive lp comps r valid lm again :
+Lemma case_ukfc_safe additive lp comps r valid lm again online :
   ukfc_valid additive lp r valid lm ->
-  run (case_ukfc additive lp comps r valid lm (lcov lm) lp comps again) = Safe.
+  run (case_ukfc additive lp comps r valid lm (lcov lm) lp comps again online) = Safe.
 Proof.
   intro Hv. apply run_safe_iff. unfold case_ukfc. cbv zeta.
+  apply Forall_app; split; [apply utweight_ok|].
   apply Forall_app; split; [apply ukf_correct_ok; exact Hv|].
   apply Forall_app; split; apply Forall_when; intro; [apply ukf_lik_ok|].
   apply ukf_correct_ok. destruct Hv as (? & ? & ? & ?). repeat split; assumption.
@@ -338,8 +359,8 @@ Qed.
 
 (* the configuration class on which the statement fails: quaternion states *)
 Lemma ukfc_quaternion_state_refuted :
-  check_shapes (case_ukfc true (Lay 2 1 true 0) 1 2 true (Lay 2 0 false 0) 2 (Lay 2 1 true 0) 1 false)
-  = Some (e_ukfc, "pred.mean(i)+K*innovation")%string.
+  run (case_ukfc true (Lay 2 1 true 0) 1 2 true (Lay 2 0 false 0) 2 (Lay 2 1 true 0) 1 false false)
+  = Fails e_ukfc "pred.mean(i)+K*innovation".
 Proof. vm_compute. reflexivity. Qed.
 
 (* ---------- SUKFCorrection on linear / Euler states ---------- *)
@@ -351,29 +372,40 @@ Proof.
     try (match goal with H : _ < _ / bs |- _ => pose proof (div_slot _ _ _ Hbs H) end; lia).
 Qed.
 
-Lemma sukf_lik_ok lp comps msz sub : 0 < sub ->
-  Forall item_ok (p_sukf_lik lp comps msz sub msz msz).
+(* the noise covariance handed to the step: the full msz x msz one, or (reduced) one sub x sub block *)
+Definition sukf_r (reduced : bool) (msz sub : nat) : nat := if reduced then sub else msz.
+
+Lemma sukf_lik_ok reduced lp comps msz sub : 0 < sub ->
+  Forall item_ok (p_sukf_lik reduced lp comps msz sub (sukf_r reduced msz sub) msz).
 Proof.
-  intro Hs. unfold p_sukf_lik. cbv zeta. repeat step; try (apply uvr_ok; auto); finish;
+  intro Hs. unfold p_sukf_lik, sukf_r. cbv zeta. destruct reduced; repeat step; try (apply uvr_ok; auto); finish;
     try (match goal with H : _ < _ / sub |- _ => pose proof (div_slot _ _ _ Hs H) end; lia).
 Qed.
 
-Lemma case_sukf_safe lp comps msz sub again :
-  quat lp = false -> noise lp = 0 ->
-  run (case_sukf lp comps msz sub msz msz lp comps again) = Safe.
+Lemma case_sukf_safe reduced lp comps msz sub again :
+  quat lp = false -> noise lp = 0 -> 0 < sub ->
+  run (case_sukf reduced lp comps msz sub (sukf_r reduced msz sub) msz lp comps again) = Safe.
 Proof.
-  intros Hq Hn. apply run_safe_iff. unfold case_sukf, p_sukf, sukf_runs. cbv zeta.
-  apply Forall_app; split; [|apply Forall_app; split]; apply Forall_when; intro Hr; b2p; [| |apply sigma_ok].
-  - apply Forall_app; split; [apply sigma_ok|].
+  intros Hq Hn Hsub. apply run_safe_iff. unfold case_sukf, p_sukf, sukf_runs, sukf_r. cbv zeta.
+  apply Forall_app; split; [apply utweight_ok|].
+  apply Forall_app; split; [|apply Forall_app; split].
+  - apply Forall_app; split; [repeat step; finish|]. apply Forall_when; intro Hr; b2p.
+    apply Forall_app; split; [apply sigma_ok|].
     destruct lp as [L C q N]; simpl in *; subst. unfold g_cov, g_mean. lay_cbn.
-    repeat step; finish2;
+    destruct reduced; repeat step; finish2;
       try (match goal with Hs : 0 < ?s, H : _ < _ / ?s |- _ => pose proof (div_slot _ _ _ Hs H) end; lia).
-  - apply sukf_lik_ok; assumption.
+  - apply Forall_when; intro. apply sukf_lik_ok; assumption.
+  - apply Forall_when; intro. apply Forall_app; split; [repeat step; finish|]. apply Forall_when; intro. apply sigma_ok.
 Qed.
 
 Lemma sukf_quaternion_state_refuted :
-  check_shapes (case_sukf (Lay 2 1 true 0) 1 2 1 2 2 (Lay 2 1 true 0) 1 false)
-  = Some (e_sukf, "propagated.middleCols(size_sigmas*i,size_sigmas)")%string.
+  run (case_sukf false (Lay 2 1 true 0) 1 2 1 2 2 (Lay 2 1 true 0) 1 false)
+  = Fails e_sukf "propagated.middleCols(size_sigmas*i,size_sigmas)".
+Proof. vm_compute. reflexivity. Qed.
+(* a sub-measurement size of 0 is accepted by the (noexcept) constructor; the step then computes meas_size % 0 *)
+Lemma sukf_zero_sub_size_refuted :
+  run (case_sukf false (Lay 3 0 false 0) 1 2 0 2 2 (Lay 3 0 false 0) 1 false)
+  = Fails e_sukf "meas_size % measurement_sub_size_".
 Proof. vm_compute. reflexivity. Qed.
 
 (* ---------- Resampling ---------- *)
@@ -382,7 +414,7 @@ Proof.
   intro Hn. unfold p_resample, g_cov, g_mean. repeat step; finish2.
 Qed.
 Lemma case_resample_safe l n : 0 < n -> run (case_resample l n l n n) = Safe.
-Proof. intro. apply run_safe_iff, resample_ok; assumption. Qed.
+Proof. intro. apply run_safe_iff. unfold case_resample. repeat step; [finish | apply resample_ok; assumption]. Qed.
 
 Lemma case_resprior_safe l n k : noise l = 0 -> k < n ->
   run (case_resprior l n k n) = Safe.
@@ -453,9 +485,21 @@ Qed.
 (* ---------- augmentWithNoise (GaussianMixture part and the ParticleSet override) ---------- *)
 Lemma augment_ok l comps qr qc : Forall item_ok (p_augment l comps qr qc).
 Proof.
-  unfold p_augment, aug_ret. cbv zeta. destruct l as [L C q N]; destruct q; lay_cbn; repeat step; finish2.
+  unfold p_augment. apply Forall_app; split; [apply augment_gm_ok|]. unfold aug_ret.
+  destruct l as [L C q N]; destruct q; lay_cbn; repeat step; finish2.
 Qed.
 Lemma case_psaug_safe l comps qr qc qr2 qc2 : run (case_psaug l comps qr qc qr2 qc2) = Safe.
 Proof.
   apply run_safe_iff. unfold case_psaug. cbv zeta. repeat step; try apply augment_ok; apply sigma_ok.
 Qed.
+
+(* ---------- statements that are false of the code (open items) ---------- *)
+(* the grid initialiser writes x, 0, y, 0 into every state column whatever its size: the states of the
+   1-D and 3-D motion models have 2 and 6 rows *)
+Lemma grid_state_2d_refuted : run (case_grid 2 2 4 (Lay 2 0 false 0)) = Fails e_grid "col<<x,0,y,0".
+Proof. vm_compute. reflexivity. Qed.
+Lemma grid_state_6d_refuted : run (case_grid 1 3 3 (Lay 6 0 false 0)) = Fails e_grid "col<<x,0,y,0".
+Proof. vm_compute. reflexivity. Qed.
+(* an empty noise covariance gives block_size = 0 in the UVR density: input_size / 0 *)
+Lemma uvr_zero_block_size_refuted : run (case_uvr 2 1 2 2 3 3 2 0 0) = Fails e_uvr "input_size / block_size".
+Proof. vm_compute. reflexivity. Qed.
